@@ -16,7 +16,7 @@ META = {
 
 THEOREMS = ["C18.attr_index_bijection", "C18.constructors_fieldwise", "C18.constructors_commute", "C18.created_reports_fields",
             "C18.created_class_supported", "C18.global_queue_map_is_model", "C18.global_queue_undefined_is_null", "C18.global_queue_classes",
-            "C18.get_specific_nearest", "C18.assert_queue_exact", "Tie.attr_consts"]
+            "C18.get_specific_nearest", "C18.assert_queue_exact", "C18.F41_apply_context_depends_on_thread", "Tie.attr_consts"]
 
 DOC_IDS = [2, 0, -2, -32768, -128, 0x21, 0x19, 0x15, 0x11, 0x09, 0x05]
 
@@ -132,6 +132,9 @@ def run(ctx):
     for l, rr, m in nd[:2]:
         ctx.violation("attribute built on DISPATCH_QUEUE_CONCURRENT in a position-dependent executable (the constant is a copy of the table entry outside the table): real library answered `%s`, the property requires `%s` for `%s`" % (rr, m, l),
                       {"line": l, "real": rr, "expected": m, "nopie": True}, signature="c18:nopie:" + l.split()[0])
+    # known finding F41: dispatch_assert_queue inside dispatch_apply answers by the thread that runs the iteration
+    from lanetrace import forced
+    forced(ctx, "f41_apply_assert", "F41", "c18:assert:apply-iteration-thread:forced-F41", "F41")
     for l, rr, m in diffs[:4]:
         kind = l.split()[0]
         # the model is the property's statement for these observations: a difference is a failing input
